@@ -181,9 +181,13 @@ func (w *Waiter) hit(verb string, rl kube.ResourceList) error {
 	return nil
 }
 
-func (w *Waiter) Wait(rl kube.ResourceList, _ time.Duration) error          { return w.hit("Wait", rl) }
-func (w *Waiter) WaitWithJobs(rl kube.ResourceList, _ time.Duration) error  { return w.hit("WaitWithJobs", rl) }
-func (w *Waiter) WaitForDelete(rl kube.ResourceList, _ time.Duration) error { return w.hit("WaitForDelete", rl) }
+func (w *Waiter) Wait(rl kube.ResourceList, _ time.Duration) error { return w.hit("Wait", rl) }
+func (w *Waiter) WaitWithJobs(rl kube.ResourceList, _ time.Duration) error {
+	return w.hit("WaitWithJobs", rl)
+}
+func (w *Waiter) WaitForDelete(rl kube.ResourceList, _ time.Duration) error {
+	return w.hit("WaitForDelete", rl)
+}
 func (w *Waiter) WatchUntilReady(rl kube.ResourceList, _ time.Duration) error {
 	return w.hit("WatchUntilReady", rl)
 }
@@ -299,8 +303,12 @@ func CloneRelease(r *release.Release) *release.Release {
 // "what was persisted" is not aliased with objects an action keeps mutating (as with any real backend).
 type SnapshotDriver struct{ driver.Driver }
 
-func (s SnapshotDriver) Create(k string, r *release.Release) error { return s.Driver.Create(k, CloneRelease(r)) }
-func (s SnapshotDriver) Update(k string, r *release.Release) error { return s.Driver.Update(k, CloneRelease(r)) }
+func (s SnapshotDriver) Create(k string, r *release.Release) error {
+	return s.Driver.Create(k, CloneRelease(r))
+}
+func (s SnapshotDriver) Update(k string, r *release.Release) error {
+	return s.Driver.Update(k, CloneRelease(r))
+}
 func (s SnapshotDriver) Get(k string) (*release.Release, error) {
 	r, err := s.Driver.Get(k)
 	if err != nil {
